@@ -32,7 +32,8 @@ LEVEL = "exploration"
 RULE = ("the (source, destination) pair space is enumerated: thorough walks all 781 x 780 ordered pairs for the default "
         "configuration (one scenario per source) plus 20 000 seeded pairs for each of 3 random distinct prefix/suffix sets and "
         "for allow_multicast off; quick checks the `pipes` clause exhaustively for 3 configurations and walks about 19 000 seeded "
-        "pairs biased to deep/deep and cross-branch routes; multicasts from sampled senders to every level. Non-trivial: "
+        "pairs biased to deep/deep and cross-branch routes, about 1 900 of them again with an acknowledged message type (the frame down the path, the last "
+        "router's NETWORK_ACK back along it); multicasts from sampled senders to every level and from the master to level 0 / node 0o1 to level 1. Non-trivial: "
         "route of >= 2 hops; distinct = distinct (configuration, source, destination)")
 ASSUMPTIONS = ["loss-free medium, one MCU at a time (no schedule/fault dimension in this property)", "chip model M8 (address/pipe matching)"]
 CLAUSES = {"pipes": "pipe addresses never collide; pipes 1-5 differ only in their first byte; pipe 0 shared per level",
@@ -87,7 +88,8 @@ def make(i, base_seed, tier):
     if tier == "quick":
         if i < 3:
             return {"seed": seed, "cfg": _cfg([0, 1 + base_seed % 3, 4][i], base_seed), "pipes": True, "pairs": [], "mcast": 6}
-        return {"seed": seed, "cfg": _cfg([0, 0, 1, 2, 3, 4][i % 6], base_seed), "pipes": False, "pairs": _biased_pairs(rng, 400), "mcast": 4}
+        return {"seed": seed, "cfg": _cfg([0, 0, 1, 2, 3, 4][i % 6], base_seed), "pipes": False, "pairs": _biased_pairs(rng, 400), "mcast": 4,
+                "ack_pairs": _biased_pairs(stream(seed, "ack"), 40)}
     if i < NCFG:
         return {"seed": seed, "cfg": _cfg(i, base_seed), "pipes": True, "pairs": [], "mcast": 25}
     j = i - NCFG
@@ -95,7 +97,8 @@ def make(i, base_seed, tier):
         s = ADDRS[j]
         return {"seed": seed, "cfg": _cfg(0, base_seed), "pipes": False, "pairs": [[s, d] for d in ADDRS if d != s], "mcast": 1, "all_from": s}
     k = 1 + (j - len(ADDRS)) // 200
-    return {"seed": seed, "cfg": _cfg(k, base_seed), "pipes": False, "pairs": _biased_pairs(rng, 100), "mcast": 2}
+    return {"seed": seed, "cfg": _cfg(k, base_seed), "pipes": False, "pairs": _biased_pairs(rng, 100), "mcast": 2,
+            "ack_pairs": _biased_pairs(stream(seed, "ack"), 60)}
 
 
 def run(scn):
@@ -203,14 +206,84 @@ def _run(scn, w, res):
         walked += 1
         if len(ref) > 2:
             res.nontrivial = True
+    # ---- walks of acknowledged message types: the frame goes down the tree path, the last router's NETWORK_ACK comes back along it
+    for (s, d) in scn.get("ack_pairs", []):
+        if res.violations:
+            break
+        ref = netref.path(s, d)
+        if len(ref) < 3:
+            continue
+        sig = {"src_level": netref.level(s), "dst_level": netref.level(d), "ack_type": True}
+        w.air.trace.clear()
+        nodes[s].write(RF24NetworkFrame(RF24NetworkHeader(d, 65), bytes([s & 0xFF, d & 0xFF, 9])))   # (returns after route_timeout: nobody else runs meanwhile)
+
+        def one_hop(cur, pkt, toward, what):
+            stored = [by_name[n] for (n, oc) in pkt["rx"] if oc == "stored"]
+            want = netref.path(cur, toward)[1]
+            if stored != [want]:
+                res.add("hop", dict(sig, kind="receivers" if len(stored) != 1 else "wrong_next_hop", frame=what),
+                        "%o -> %o (type 65): the %s transmitted by %o to %s was stored by %r, the tree path toward %o continues at %o"
+                        % (s, d, what, cur, pkt["addr"].hex(), [oct(x) for x in stored], toward, want))
+                return None
+            if not (radios[want].rx_fifo and radios[want].rx_fifo[-1][0]):
+                res.add("hop", dict(sig, kind="pipe0", frame=what), "%o -> %o (type 65): the %s arrived on pipe 0 of %o" % (s, d, what, want))
+                return None
+            return want
+        cur, ack_from = s, None
+        for _ in range(10):
+            pk = [t for t in w.air.trace if not t["ack"] and by_name.get(t["src"]) == cur]
+            w.air.trace.clear()
+            last_router = cur != s and netref.path(cur, d)[1] == d
+            if len(pk) != (2 if last_router else 1):
+                res.add("hop", dict(sig, kind="transmissions"), "%o -> %o (type 65): node %o transmitted %d packets (%s)" % (s, d, cur, len(pk), "last router: frame + NETWORK_ACK" if last_router else "one forward"))
+                break
+            nxt = one_hop(cur, pk[0], d, "frame")
+            if nxt is None:
+                break
+            if last_router:
+                if len(pk[1]["data"]) < 8 or pk[1]["data"][6] != 193:
+                    res.add("hop", dict(sig, kind="no_network_ack"), "%o -> %o (type 65): the last router %o sent type %r after the frame" % (s, d, cur, pk[1]["data"][6] if len(pk[1]["data"]) > 6 else None))
+                    break
+                ack_at = one_hop(cur, pk[1], s, "NETWORK_ACK")
+                if ack_at is None:
+                    break
+                ack_from = cur
+            nodes[nxt].update()
+            if nxt == d:
+                f = nodes[d].read()
+                if f is None or f.header.from_node != s or f.header.message_type != 65:
+                    res.add("path", dict(sig, kind="not_queued"), "%o -> %o (type 65): frame reached the destination's radio but not its queue" % (s, d))
+                break
+            cur = nxt
+        if res.violations or ack_from is None:
+            continue
+        # the NETWORK_ACK on its way back to the origin
+        cur = ack_at
+        for _ in range(10):
+            nodes[cur].update()
+            if cur == s:
+                break
+            pk = [t for t in w.air.trace if not t["ack"] and by_name.get(t["src"]) == cur]
+            w.air.trace.clear()
+            if len(pk) != 1:
+                res.add("hop", dict(sig, kind="transmissions", frame="NETWORK_ACK"), "%o -> %o (type 65): node %o transmitted %d packets when forwarding the NETWORK_ACK" % (s, d, cur, len(pk)))
+                break
+            cur = one_hop(cur, pk[0], s, "NETWORK_ACK")
+            if cur is None:
+                break
+        w.air.trace.clear()
+        res.count("ack_type_pairs_walked")
+        res.nontrivial = True
     # ---- multicasts
     rng = stream(scn["seed"], "mc")
     if cfg["multicast"]:
-        for _ in range(scn.get("mcast", 0)):
+        for k_ in range(scn.get("mcast", 0) + 2):
             if res.violations:
                 break
             s = rng.choice(ADDRS)
             L = rng.randrange(5)
+            if k_ < 2:
+                s, L = [(0, 0), (0o1, 1)][k_]    # senders whose own address is the level's representative address
             w.air.trace.clear()
             nodes[s].multicast(b"mc", 2, L)
             pk = [t for t in w.air.trace if not t["ack"]]
